@@ -234,15 +234,10 @@ def judge_c19(res, arch, plan, rate):
     recs = p.records
     adv_key = getattr(p, 'key', [])
     adv_kex = getattr(p, 'kex', [])
-    probed_types = 0
-    seen = set()
+    # "at most one per probed host-key type": every distinct advertised name the probe table knows (the RSA family shares one
+    # probe when it succeeds, but each member may be probed when an earlier member's probe failed)
     HK = runner.M['hostkeytest'].HostKeyTest
-    for t in HK.HOST_KEY_TYPES:
-        if t in adv_key and t not in seen:
-            probed_types += 1
-            if t in HK.RSA_FAMILY:
-                seen.update(HK.RSA_FAMILY)
-            seen.add(t)
+    probed_types = len(set(t for t in adv_key if t in HK.HOST_KEY_TYPES))
     gex_algs = sorted(set(k for k in adv_kex if k in peer.GEX_NAMES))      # per offered algorithm, however often it is listed
     init = initial_conns(arch)
     rate_cap = 38 + 3 + 20 if rate else 0     # completed + concurrent in flight + attempts during the 1.5 s window
